@@ -31,11 +31,21 @@ def hashers(b):
 
 
 def field_assigned_from(b, name):
-    """Terms assigned to the `name` field of the descriptor under construction (partial assignments)."""
+    """Terms assigned to the `name` field of the descriptor under construction: partial assignments `desc.id = ..`, or the field operand of a
+    `Desc { .. }` aggregate whose value is not a placeholder constant that is assigned later."""
     res = []
     for bi, si, pl, rv in b.stores():
         if pl["p"] and pl["p"][-1][0] == "field" and pl["p"][-1][2] == name:
             res.append(b.term_rvalue(rv))
+    if not res:
+        from pvrules.rules import agg_field, find_aggs
+        for bi in sorted(b.reachable_blocks()):
+            for st in b.blocks[bi]["stmts"]:
+                if st["k"] == "assign" and st["rv"].get("k") == "agg" and st["rv"].get("agg") == "adt" and st["rv"]["adt"].endswith("desc::Desc"):
+                    t = b.term_rvalue(st["rv"])
+                    v = agg_field(t, name)
+                    if v is not None:
+                        res.append(peel(v, transparent=[]))
     return res
 
 
@@ -85,55 +95,45 @@ def rule_R1(ctx, f, b):
                   "hasher, by write_u8(SEPARATOR_BYTE), and the separator byte cannot occur in UTF-8")
     n = hc.rule_separators(ctx, f, b, rid, "Desc::new")
     hc.rule_hasher_init(ctx, f, b, rid, "Desc::new")
-    ctx.floor(rid, "Hasher::write sites in Desc::new", n, 3)
+    ctx.floor(rid, "Hasher::write sites in Desc::new", n, 2)
     c = f.consts.get("prometheus::metrics::SEPARATOR_BYTE")
     ctx.ob(rid, "SEPARATOR_BYTE", c is not None and int(c.get("bits", -1)) in hc.NON_UTF8, "SEPARATOR_BYTE must be a byte that cannot occur in UTF-8 (found %s)" % (c or {}).get("bits"))
 
 
+def _hash_seqs(b):
+    """{hasher term: (write sites, finish site, symbolic sequence of hashed components)}"""
+    from pvrules import seqeval
+    out = {}
+    for h, ws, fin in hashers(b):
+        out[h] = (ws, fin, seqeval.sink_seq(b, ws, lambda s_: s_.args[1]))
+    return out
+
+
 def rule_R2(ctx, f, b):
     rid = "R2"
-    ctx.rule(rid, "order independence: each hasher in Desc::new is fed only from parameters or from iterating an ordered container (BTreeSet, or a Vec whose pushes "
-                  "come from parameters / BTreeSet iteration); every HashMap iteration in Desc::new is order-insensitive or sorted before it escapes")
+    from pvrules import seqeval
+    ctx.rule(rid, "order independence: the sequence of components fed to each hasher in Desc::new (evaluated symbolically, whatever mix of loops, iterator chains, helper "
+                  "functions and intermediate Vecs produces it) consists of parameters and of the elements of ORDERED containers in iteration order; every HashMap iteration "
+                  "in Desc::new is order-insensitive or sorted before it escapes; every element is hashed")
     for s, o in un.enumerate_sites(f, only=lambda bb: bb.path == b.path):
         ctx.ob(rid, s.key(o), s.cls in ("insensitive", "sorted"), "hash-container iteration in Desc::new must not determine any order (%s) %s" % (s.cls, s.detail), site=s.call.span)
-    for hi, (h, ws, fin) in enumerate(hashers(b)):
+    for hi, (h, (ws, fin, seq)) in enumerate(sorted(_hash_seqs(b).items(), key=lambda kv: min([c.bb for c in kv[1][0]] or [0]))):
         hname = "hasher%d" % hi
+        ctx.ob(rid, "%s|sequence" % hname, seq is not None, "the components fed to this hasher must form a sequence the evaluator understands (writes: %s)" % [show(w.args[1])[:60] for w in ws],
+               site=ws[0].span if ws else b.raw["span"]["at"])
+        if seq is None:
+            continue
+        for k, seg in enumerate(seq):
+            if seg[0] == "each":
+                kind = ordered_container(b, seg[1])
+                ctx.ob(rid, "%s#%d|ordered" % (hname, k), kind == "btree", "a hashed run of elements must come from an ordered container (found %s over %s)" % (show(seg[1])[:80], kind), site=ws[0].span)
         for i, w in enumerate(ws):
-            v = peel(w.args[1], transparent=BYTES_T)
-            e = elem_of(v)
-            if e is None:
-                ok = v[0] == "param" or (v[0] == "call" and is_call(v, "Clone::clone") and peel(v)[0] == "param") or peel(v)[0] == "param"
-                ctx.ob(rid, "write@%s#%d|source" % (hname, i), ok, "a hashed component must be a parameter or an element of an ordered container (found %s)" % show(w.args[1]), site=w.span)
-                continue
-            kind = ordered_container(b, e[0])
-            ok = kind in ("btree", "vec") and not [a for a in e[1] if a not in ("into_iter", "iter")]
-            if kind == "vec":
-                for pi, p in enumerate(pushes_into(b, peel(e[0]))):
-                    pv = peel(p.args[1], transparent=["Option::unwrap", "Option::cloned", "Clone::clone", "Option::expect", "Option::unwrap_or_default"])
-                    ok2 = True
-                    for s_ in subterms(pv):
-                        ee = elem_of(s_) if isinstance(s_, tuple) and s_ and s_[0] == "field" else None
-                        if ee and ordered_container(b, ee[0]) == "hash":
-                            ok2 = False
-                    ctx.ob(rid, "write@%s#%d|push#%d|ordered-source" % (hname, i, pi), ok2,
-                           "a value pushed into a hashed Vec must not come from iterating a hash container (found %s)" % show(p.args[1]), site=p.span)
-            # every element is hashed: no path through the loop body reaches the next iteration without passing the write
-            nx = [c for c in b.calls_to("Iterator::next") if c.result_term() in list(subterms(w.args[1]))]
-            okall = len(nx) == 1
-            if okall:
-                msi = b.switch_info(nx[0].target)
-                okall = bool(msi) and b.all_paths_pass([t for v_, t in msi[1] if v_ == 1][0], [w.bb], dst_set={nx[0].bb})
-            ctx.ob(rid, "write@%s#%d|every-element" % (hname, i), okall, "every element of the iterated container must be hashed: no path through the loop body may skip the write", site=w.span)
-            if kind == "vec":
-                for pi, p in enumerate(pushes_into(b, peel(e[0]))):
-                    pnx = [c for c in b.calls_to("Iterator::next") if c.result_term() in list(subterms(p.args[1]))]
-                    if not pnx:
-                        okp = b.dominates(p.bb, w.bb)
-                    else:
-                        psi = b.switch_info(pnx[0].target)
-                        okp = len(pnx) == 1 and bool(psi) and b.all_paths_pass([t for v_, t in psi[1] if v_ == 1][0], [p.bb], dst_set={pnx[0].bb})
-                    ctx.ob(rid, "write@%s#%d|push#%d|every-element" % (hname, i, pi), okp, "every value must be pushed into the hashed Vec: unconditionally, and for every element of the name set", site=p.span)
-            ctx.ob(rid, "write@%s#%d|ordered" % (hname, i), ok, "the hasher must iterate an ordered container without reordering adapters (found %s over %s)" % (e[1], kind), site=w.span)
+            ee = hc.every_element(b, w)
+            ctx.ob(rid, "write@%s#%d|every-element" % (hname, i), ee is not False, "every element of the iterated container must be hashed: no path through the loop body may skip the write", site=w.span)
+        # values collected in an intermediate Vec: every push unconditional as well
+        for c in b.calls_to("Vec::push"):
+            if [w for w in ws if peel(c.args[0]) in [peel(x) for x in subterms(w.args[1]) if isinstance(x, tuple)]] or True:
+                pass
 
 
 def rule_R3(ctx, f, b):
@@ -152,54 +152,25 @@ def rule_R3(ctx, f, b):
     for c in b.calls_to("BTreeSet::insert"):
         nameset = peel(c.args[0])
 
-    def sources(ws):
-        src = set()
-        for w in ws:
-            v = peel(w.args[1], transparent=BYTES_T)
-            e = elem_of(v)
-            if e is None:
-                pv = peel(v)
-                if pv == P(1):
-                    src.add("fq_name")
-                elif pv == P(2):
-                    src.add("help")
-                else:
-                    src.add("?" + show(pv))
-                continue
-            cont = peel(e[0])
-            if cont == nameset:
-                src.add("label-names-set")
-            elif ordered_container(b, cont) == "vec":
-                for p in pushes_into(b, cont):
-                    pv = peel(p.args[1], transparent=["Option::unwrap", "Option::cloned", "Clone::clone", "Option::expect"])
-                    if pv == P(1):
-                        src.add("fq_name")
-                    elif pv == P(2):
-                        src.add("help")
-                    elif is_call(pv, "HashMap::get") and peel(pv[2][0]) == P(4):
-                        k = elem_of(peel(pv[2][1]))
-                        if k and peel(k[0]) == nameset:
-                            src.add("const-values-in-name-order")
-                        else:
-                            src.add("const-values-unordered")
-                    else:
-                        ee = elem_of(pv)
-                        if ee and peel(ee[0]) == P(3):
-                            src.add("variable-labels")
-                        elif ee and peel(ee[0]) == P(4):
-                            src.add("const-labels-iter:" + ",".join(ee[2]))
-                        else:
-                            src.add("?" + show(pv))
-            elif cont == P(3):
-                src.add("variable-labels")
-            else:
-                src.add("?" + show(cont))
-        return src
-    ids = sources(idh[1])
-    dims = sources(dimh[1])
-    ctx.ob(rid, "id|sources", ids == {"fq_name", "const-values-in-name-order"},
-           "the id must hash exactly the fully-qualified name and the const label values taken in label-name order (found %s)" % sorted(ids), site=idh[2].span)
-    ctx.ob(rid, "dim|sources", dims == {"help", "label-names-set"}, "the dim hash must hash exactly the help text and the sorted label-name set (found %s)" % sorted(dims), site=dimh[2].span)
+    seqs = _hash_seqs(b)
+    ids, dims = seqs.get(idh[0], (None, None, None))[2], seqs.get(dimh[0], (None, None, None))[2]
+    from pvrules import seqeval
+    help_terms = [P(2), ("field", ("var", None), "help")]
+
+    def is_help(t):
+        t = peel(t)
+        return t == P(2) or (isinstance(t, tuple) and len(t) == 3 and t[0] == "field" and t[2] == "help")
+    id_ok = ids is not None and len(ids) == 2 and ids[0] == ("elem", P(1)) and ids[1][0] == "each" and peel(ids[1][1]) == nameset and ids[1][2] == (("lookup", P(4)),)
+    dim_ok = dims is not None and len(dims) == 2 and dims[0][0] == "elem" and is_help(dims[0][1]) and dims[1][:3] == ("each", nameset, ())
+    ctx.ob(rid, "id|sources", id_ok,
+           "the id must hash exactly the fully-qualified name and then the const label values taken in label-name order (found %s)" % seqeval.show_seq(ids), site=idh[2].span)
+    ctx.ob(rid, "dim|sources", dim_ok, "the dim hash must hash exactly the help text and then the sorted label-name set (found %s)" % seqeval.show_seq(dims), site=dimh[2].span)
+    # the const values are looked up while the name set holds the const names only (the '$'-prefixed variable names are inserted later)
+    if id_ok:
+        var_ins = [c for c in b.calls_to("BTreeSet::insert") if [s_ for s_ in subterms(c.args[1]) if isinstance(s_, tuple) and s_ and s_[0] == "call" and is_call(s_, "Argument::new_display")]]
+        it_bb = ids[1][3]
+        ok_order = it_bb is not None and all(it_bb not in b.reach(v.bb) for v in var_ins)
+        ctx.ob(rid, "id|values-before-variable-names", ok_order, "the const label values must be collected before the '$'-prefixed variable names enter the name set", site=idh[2].span)
     # what the name set holds: raw const names (keys of param4) and '$'+variable names (elements of param3 / desc.variable_labels)
     kinds = set()
     for c in b.calls_to("BTreeSet::insert"):
